@@ -3240,6 +3240,11 @@ generalized_affine_preimage(const Variable var,
     return;
   }
 
+  // Any preimage of an empty polyhedron is empty.
+  if (marked_empty()) {
+    return;
+  }
+
   // Compute the reversed relation symbol to simplify later coding.
   Relation_Symbol reversed_relsym;
   switch (relsym) {
